@@ -16,7 +16,7 @@ DIMS = [
     ("unst", ["none", "bare", "with"]),
     ("check", [False, True]),
     ("emit", ["none", "files", "stdout", "json", "checkstyle", "coverage", "bogus"]),
-    ("cfgemit", [False, True]),
+    ("cfgemit", ["none", "stdout", "files"]),
     ("backup", [False, True]),
     ("list", [False, True]),
     ("nargs", [1, 0, 2]),
@@ -57,8 +57,8 @@ def argv_of(f, d):
         a.append("--check")
     if f["emit"] != "none":
         a += ["--emit", f["emit"]]
-    if f["cfgemit"]:
-        a += ["--config", "emit_mode=stdout"]
+    if f["cfgemit"] != "none":
+        a += ["--config", "emit_mode=" + f["cfgemit"]]
     if f["backup"]:
         a.append("--backup")
     if f["list"]:
